@@ -5,12 +5,18 @@ sys.path.insert(0, '/verif')
 from checks import CHECKS
 
 TEXT = {
+ 'C03': ('TLC explores every interleaving of Send / Recv / context close on up to 2 contexts and 2 client threads with replies of every kind (current, stale, foreign, without the request bit, duplicates, on any connection), pipe loss, timers and close on spec/Req.tla (one action per lock region of req.go) and checks that the id map is sound, a stored reply is the current one, every delivered reply was injected by a peer for the most recent request of that context and no request is answered twice; the real REQ socket is driven in a synctest bubble by a harness that plays the REP peers at transport level and crafts such replies; every recorded trace (API results with the reply tag, transmissions with id and digest, snapshots of ctxByID / per-context fields / sendQ / readyQ at every quiescence) must be a behaviour of Req.tla.',
+         'DESIGN.md section 3 C03', 'TLA+ spec Req.tla + TLC exhaustive + TLC trace validation with state snapshots'),
+ 'C04': ('Same specification; the properties are NoDeadDispatch (nothing handed to a pipe once answered / cancelled / closed), retries-disabled-never-resends, one pipe per transmission, and on traces: every transmission must be explained by the first send, a loss of the carrying pipe or a resend timer armed exactly one retry interval earlier (exact virtual time, never sooner, and - through the quiescence lines - never later), with byte-identical digests; scenarios are a fault enumeration (drop / new connection / slow peer / cancel / close / time just before and at the retry instant injected at every prefix of a base scenario) plus seeded random ones.',
+         'DESIGN.md section 3 C04', 'TLA+ spec Req.tla + TLC exhaustive + fault enumeration on the real code + TLC trace validation with exact virtual time'),
  'C13': ('TLC explores every interleaving of addPipe / pipe.Close / remPipe / hooks / protocol verdicts / socket close of spec/Core.tla for 2-3 connections (exhaustive within the cfg constants) and checks the hook language, protocol-told-once-each and id-held-until-Detached-returned invariants; the real internal/core is then driven through scripted and seeded scenarios (hook-side closes in Attaching/Attached, protocol refusals, peer drops incl. during proto.AddPipe, listener and dialer sides, socket close) in a synctest bubble and every recorded trace (hook events with the id and the allocator state, what the protocol was told, snapshots of ids in use / pipes listed at each quiescence) must be a behaviour of Core.tla on which those invariants hold.',
          'DESIGN.md section 3 C13', 'TLA+ spec Core.tla + TLC exhaustive + TLC trace validation of synctest-recorded executions'),
  'C14': ('TLC checks spacing, growth bounds, reset, retry-pending and no-attempt-after-close on spec/Core.tla over all fault sequences (refused / rejected / established-then-dropped / close at any phase) for asynchronous and synchronous dialing, with and without a maximum; the real dialer is driven in virtual time (failure storms that reach the cap, drops after success, options set on the dialer or on the socket) and every dial attempt must happen at exactly the virtual instant the specification allows, with the snapshot of reconnTime bound to the random back-off factor and checked against [1.1,1.5] and the cap.',
          'DESIGN.md section 3 C14', 'TLA+ spec Core.tla + TLC exhaustive + TLC trace validation with exact virtual timestamps'),
 }
 NOTES = {
+ 'C03': 'trusted: TLC, synctest, virtual transport/recorder, the REQ snapshot accessor; bounds: 2 contexts, 2 threads, 2 pipes, 2-3 requests in the exhaustive runs; the conformance side is bounded by the scenarios replayed',
+ 'C04': 'trusted: as C03; liveness ("completes as soon as any peer answers") is decided on traces through quiescence lines, not by a TLC liveness check',
  'C13': 'trusted: TLC, synctest, the virtual transport/recorder, the read-only verif accessors; internal goroutine interleavings are exhaustive only on the specification, on the code they are those the environment schedule produces',
  'C14': 'trusted: TLC, synctest virtual time, the virtual transport/recorder, the dialer accessor; times are compared at microsecond resolution',
 }
